@@ -1,6 +1,9 @@
 import Qentem.Model.NumToStr
 import Qentem.Model.FmtSpec
 import Qentem.Proofs.NumToStrRound
+import Qentem.Proofs.NumToStrParse
+import Qentem.Props.C10
+import Qentem.Proofs.NumToStrIdent
 /-! C11 — every finite double survives format(17 digits) then parse, bit for bit; every float
 survives 9 digits.
 
@@ -88,6 +91,115 @@ theorem roundtrip_small_int (bits j : Nat)
   obtain ⟨den, hden, hdec⟩ := Qentem.Proofs.NumToStr.decode64_int h
   exact ⟨_, _, _, den, hden, Qentem.Proofs.NumToStr.format17_small_int bits j h hsmall,
     Qentem.Proofs.NumToStr.readDecimal_signed_D _ _, hdec⟩
+
+/-- `roundtrip17_integers_parser`: the round trip **through the real parser model** (`StrToNum.strToNum`, C09)
+for every double holding an integer `n` with `0 < n < 2^53`, either sign: `NumberToString(17)` prints a text `t`
+on which `stringToNumber` returns kind Natural with value exactly `n` (kind Integer with the two's-complement
+pattern of `-n` for negative values) and consumes all of `t`; `n·den/den` is the value the bit pattern decodes
+to.  The library's `double(n)` of an integer below 2^53 is exact, so the original bits come back. -/
+theorem roundtrip17_integers_parser (bits j : Nat)
+    (h : Qentem.Proofs.NumToStr.IntValued64 ((bits / 2 ^ 52) % 2 ^ 11) (bits % 2 ^ 52) j)
+    (hsmall : (bits / 2 ^ 52) % 2 ^ 11 - 1023 ≤ 52) :
+    ∃ t n den, 0 < den ∧ format17 bits = .ok t ∧
+      FmtSpec.decode64 bits = .fin (decide (bits / 2 ^ 63 % 2 = 1)) (n * den) den ∧
+      StrToNum.strToNum t 0 t.length =
+        some (if bits / 2 ^ 63 % 2 = 1 then ⟨.integer, 2 ^ 64 - n, t.length⟩ else ⟨.natural, n, t.length⟩) :=
+  Qentem.Proofs.NumToStr.roundtrip17_int_parser bits j h hsmall
+
+/-- **The remaining gap of `RoundTrip17`, stated precisely.**  `FormatEqSpec` is proved, so the 17-digit text is
+the correctly rounded decimal (`format17_is_reference`), and `Identifies17` is proved below (`identifies17`).  What
+is still needed is the parser half alone (`roundtrip17_of_parser`):
+* `ParsesExactly17` — the parser returns the nearest double on those numerals; C09 proves exactness for the
+  integer shape only (used above), its real path is proved safe and well-formed but its rounding
+  (`real_within_one_ulp`) is open, and one ulp would not be enough for the round trip anyway. -/
+def RoundTrip17Gap (parse : List Nat → Option Nat) : Prop := Identifies17 ∧ ParsesExactly17 parse
+
+theorem roundtrip17_of_gap (parse : List Nat → Option Nat) (h : RoundTrip17Gap parse) : RoundTrip17 parse :=
+  roundtrip17_of_halves parse h.1 h.2
+
+/-! ### the formatter half after `FormatEqSpec`
+
+`Props.C10.format_eq_spec` makes the 17-digit (9-digit) text *equal to the reference `%.17g` (`%.9g`) text* for every
+bit pattern.  The formatter half of the round trip therefore no longer mentions the code: it is a statement about
+the reference alone. -/
+
+/-- `format17_is_reference`: for **every** bit pattern the 17-digit text of the model is the reference `%.17g` text,
+and the run raises no fault -/
+theorem format17_is_reference (b : Nat) : format17 b = .ok (FmtSpec.format64 b 17 .default) := by
+  have := Qentem.Props.C10.format_eq_spec_double [] b 17 Qentem.Generated.NumToStr.fmtDefault (by decide) (by decide)
+  have hf : Qentem.Props.C10.specFmt Qentem.Generated.NumToStr.fmtDefault = .default := by decide
+  rw [hf] at this
+  simpa [format17, realText] using this
+
+theorem format9_is_reference (b : Nat) : format9 b = .ok (FmtSpec.format32 b 9 .default) := by
+  have := Qentem.Props.C10.format_eq_spec_float [] b 9 Qentem.Generated.NumToStr.fmtDefault (by decide) (by decide)
+  have hf : Qentem.Props.C10.specFmt Qentem.Generated.NumToStr.fmtDefault = .default := by decide
+  rw [hf] at this
+  simpa [format9, realText] using this
+
+/-- the purely mathematical core of the formatter half: a binary64 value printed with 17 correctly rounded
+significant digits (`%.17g`) and read back exactly with round-to-nearest-even gives the same value.  A statement
+about `FmtSpec` (IEEE 754 + `printf`) only — no part of the library's code occurs in it. -/
+def SpecIdentifies17 : Prop :=
+  ∀ b, isFinite64 b → FmtSpec.readBits64 (FmtSpec.format64 b 17 .default) = some b
+
+def SpecIdentifies9 : Prop :=
+  ∀ b, isFinite32 b → FmtSpec.readBits32 (FmtSpec.format32 b 9 .default) = some b
+
+/-- `identifies17_of_spec`: the formatter half of C11 follows from the mathematical statement alone -/
+theorem identifies17_of_spec (h : SpecIdentifies17) : Identifies17 :=
+  fun b hb => ⟨_, format17_is_reference b, h b hb⟩
+
+theorem identifies9_of_spec (h : SpecIdentifies9) : Identifies9 :=
+  fun b hb => ⟨_, format9_is_reference b, h b hb⟩
+
+/-- the parser half, now on reference texts only -/
+def ParsesReference17 (parse : List Nat → Option Nat) : Prop :=
+  ∀ b, isFinite64 b → parse (FmtSpec.format64 b 17 .default) = FmtSpec.readBits64 (FmtSpec.format64 b 17 .default)
+
+def ParsesReference9 (parse : List Nat → Option Nat) : Prop :=
+  ∀ b, isFinite32 b → parse (FmtSpec.format32 b 9 .default) = FmtSpec.readBits32 (FmtSpec.format32 b 9 .default)
+
+/-- `roundtrip17_reduced`: **what is left of C11 after `FormatEqSpec`** — no statement about the formatter's code
+remains.  The round trip holds for any parser as soon as (1) 17 correctly rounded digits identify a double
+(`SpecIdentifies17`, mathematics) and (2) the parser rounds `%.17g`-shaped numerals correctly (`ParsesReference17`,
+the StringToNumber area: C09 proves this for the integer shape only). -/
+theorem roundtrip17_reduced (parse : List Nat → Option Nat) (h1 : SpecIdentifies17) (h2 : ParsesReference17 parse) :
+    RoundTrip17 parse :=
+  fun b hb => ⟨_, format17_is_reference b, by rw [h2 b hb, h1 b hb]⟩
+
+theorem roundtrip9_reduced (parse : List Nat → Option Nat) (h1 : SpecIdentifies9) (h2 : ParsesReference9 parse) :
+    RoundTrip9 parse :=
+  fun b hb => ⟨_, format9_is_reference b, by rw [h2 b hb, h1 b hb]⟩
+
+/-! ### the formatter half, proved -/
+
+/-- `spec_identifies17`: **17 correctly rounded significant digits identify a binary64 value** — for every finite
+double (subnormals, both zeros included) the reference `%.17g` text, read exactly and rounded to nearest-even, is
+the same bit pattern.  (The classical `2^53 < 10^16` argument: the decimal step at 17 digits is smaller than the
+binary step, and smaller than half of it at the bottom of a binade.)  About the reference only. -/
+theorem spec_identifies17 : SpecIdentifies17 :=
+  fun b hb => Qentem.Proofs.Ident.spec_identifies17 b hb.1 hb.2
+
+/-- `spec_identifies9`: 9 digits identify a binary32 value (`2^24 < 10^8`) -/
+theorem spec_identifies9 : SpecIdentifies9 :=
+  fun b hb => Qentem.Proofs.Ident.spec_identifies9 b hb.1 hb.2
+
+/-- `identifies17`: **the formatter half of C11 holds**: for every finite double `NumberToString` with 17
+significant digits (as modelled) raises no fault and prints a text whose exact decimal value rounds
+(nearest, ties to even) to the original bits.  `format_eq_spec` (text = reference) + `spec_identifies17`. -/
+theorem identifies17 : Identifies17 := identifies17_of_spec spec_identifies17
+
+/-- `identifies9`: the same for floats with 9 digits -/
+theorem identifies9 : Identifies9 := identifies9_of_spec spec_identifies9
+
+/-- `roundtrip17_of_parser`: **C11 for any parser that rounds correctly**: the only hypothesis left is about the
+parser (`ParsesExactly17`: on the texts the formatter emits it returns the nearest double). -/
+theorem roundtrip17_of_parser (parse : List Nat → Option Nat) (hp : ParsesExactly17 parse) : RoundTrip17 parse :=
+  roundtrip17_of_halves parse identifies17 hp
+
+theorem roundtrip9_of_parser (parse : List Nat → Option Nat) (hp : ParsesExactly9 parse) : RoundTrip9 parse :=
+  roundtrip9_of_halves parse identifies9 hp
 
 /-- non-vacuity: 3.0 and -(2^53 - 1) satisfy the hypotheses -/
 example : Qentem.Proofs.NumToStr.IntValued64 ((0x4008000000000000 / 2 ^ 52) % 2 ^ 11) (0x4008000000000000 % 2 ^ 52) 51 := by
